@@ -538,8 +538,16 @@ func gitMv(x index, w wtree, from, to string) result {
 		r := unchanged(x, w, "")
 		r.unmodeled = "mv across a symlinked directory"
 		return r
+	case fn.kind == 'd' && x.hasUnder(from):
+		r := unchanged(x, w, "")
+		r.unmodeled = "mv of a directory (go-git: not supported, returns an error)"
+		return r
 	case fn.kind == 'd':
 		return unchanged(x, w, "source is a directory without tracked files below it")
+	case w[to].kind == 'd':
+		r := unchanged(x, w, "")
+		r.unmodeled = "mv into an existing directory (go-git refuses: destination exists)"
+		return r
 	}
 	e, tracked := x[from]
 	if !tracked {
